@@ -124,6 +124,11 @@ func (r *FederationRequest) HTTPRequest() (*http.Request, error) {
 		content = bytes.NewReader([]byte(r.fields.Content))
 	}
 
+	// net/http reads the empty method as GET: what was signed (the method "")
+	// would not be what is sent.
+	if r.fields.Method == "" {
+		return nil, fmt.Errorf("gomatrixserverlib: Request has no method")
+	}
 	httpReq, err := http.NewRequest(r.fields.Method, urlStr, content)
 	if err != nil {
 		return nil, err
